@@ -45,6 +45,10 @@ func NewSparseConstFloat64Vector(indices []int, values []float64, n int) SparseC
   if len(indices) != len(values) {
     panic("invalid number of indices")
   }
+  // work on copies: the caller's slices are neither reordered nor shared
+  // with the vector (the Unsafe constructor above is the one that shares)
+  indices = append([]int{}, indices...)
+  values = append([]float64{}, values...)
   sort.Sort(sortIntConstFloat64{indices, values})
   r := nilSparseConstFloat64Vector(n)
   r.indices = indices[0:0]
